@@ -37,7 +37,7 @@ CHECKS = {
          "(early exits, accumulators, clamps, occurrence indexes, bound identifiers) equals the declarative three-valued "
          "semantics; rule verdict and totality corollaries; correspondence on rule verdicts and on integer sub-expression values "
          "observed through console.log probes.", "DESIGN.md §7 C04",
-         "Floats, regex values, `matches`, entrypoint and module values are outside the model; parser and compile_expression are "
+         "Floats are binary64 values of Coq.Floats.SpecFloat and `matches` answers Spec/Regex.v is_match (the regex engine is C03's subject); entrypoint and module values are outside the model; parser and compile_expression are "
          "covered by the correspondence only; percentages restricted to (p, n) where binary64 and exact ceil agree."),
  "C05": ("proof", "C05_scan_eq_spec: the two-phase scan procedure (global rules first with delayed reporting, namespace "
          "disabling, fix-up, positional rule references, variable alignment) returns exactly the declarative rule-set semantics, "
